@@ -8,10 +8,17 @@
   * `BdfCtl.limits_le_hmax` (Proofs/BdfLemmas.lean) : the step BDF's limiter hands to a pass satisfies |h| ≤ h_max, or it
     was stretched to land on xend and then |h| ≤ stretch·h_max (ordered field; the control model X-bdf runs beside Rust).
   * `startMeter_first_step` : a given first_step h0 makes the first trial step |h0|·posneg.
+  * `startMeter_auto_le_hmax` (via `HinitBound.hinit_le_hmax`, the translated `hinit`) : an automatically chosen first
+    step is at most min(h_max, |xend − x0|), for every right-hand side (ordered field; `powf ≥ 0` at base ≥ 0 assumed).
+  * `RadauCtl.c11_radau_steps` (Proofs/RadauStep.lean: `pass_rinv`, `run_rinv`, `start_rinv`) : every pass of every Radau
+    run works with |h| ≤ h_max, or ≤ 1.01·h_max on the landing step, pointing toward xend and not passing it.
 -/
 import IvpModel.Proofs.CtlField
 import IvpModel.Proofs.CtlRk
 import IvpModel.Proofs.BdfLemmas
+import IvpModel.Proofs.HinitBound
+import IvpModel.Proofs.RadauStep
+import IvpModel.Model.Kernels
 
 namespace Ctl
 variable {α : Type} [Num α] {n : Nat}
@@ -34,3 +41,45 @@ theorem startMeter_first_step (f : Rhs α n) (x0 : α) (y0 : Vec α n) (posneg h
       ∧ (startMeter f x0 y0 posneg (some h0) hinit).2.2.ncalls = 1 := by
   unfold startMeter; exact ⟨rfl, rfl⟩
 end Ctl
+
+namespace Ctl
+noncomputable section
+variable {K : Type} [Field K] [LinearOrder K] [IsStrictOrderedRing K] [SqrtPow K] {n : Nat}
+
+/-- **C11, automatically chosen first step (DOPRI5 / DOP853 / RK23).**  Without `first_step` the first trial step is what
+    `hinit` returns, and that is at most the `hmax.min(|xend − x0|)` it was given, for every right-hand side. -/
+theorem startMeter_auto_le_hmax (hpow : ∀ a b : K, 0 ≤ a → 0 ≤ SqrtPow.pow a b) (f : Rhs K n) (x0 : K) (y0 : Vec K n)
+    (atol rtol : Vec K n) (posneg hmax span : K) (iord : Nat) (hm : 0 ≤ hmax) (hs : 0 ≤ span) :
+    |(startMeter f x0 y0 posneg none (hinitCall atol rtol x0 y0 posneg (Num.fmin hmax span) iord)).1| ≤ hmax
+    ∧ |(startMeter f x0 y0 posneg none (hinitCall atol rtol x0 y0 posneg (Num.fmin hmax span) iord)).1| ≤ span := by
+  have h := HinitBound.hinit_le_hmax hpow (fun j => f (1 + j)) atol rtol y0 (f 0 x0 y0) (Num.fmin hmax span) posneg x0 iord
+  rw [num_fmin, abs_of_nonneg (le_min hm hs)] at h
+  exact ⟨le_trans h (min_le_left _ _), le_trans h (min_le_right _ _)⟩
+end
+end Ctl
+
+namespace RadauCtl
+noncomputable section
+variable {K : Type} [Field K] [LinearOrder K] [IsStrictOrderedRing K] [SqrtPow K]
+
+/-- **C11 / C03 (Radau), from the first pass on.**  With the literals of radau.rs, default-like settings
+    (`1.01·safety ≤ 1`, `1.01·scale_min ≤ 1`) and `max_step ≥ 0`, every pass of every run — whatever the factorisations,
+    Newton increments, error estimates and callback answer — works with a step that points toward `xend`, does not pass
+    it, and is at most `h_max`, or at most `1.01·h_max` when it is the landing step. -/
+theorem c11_radau_steps (hpow : PowOK K) (S : Setup K) (hs : 0 < S.safety) (hsS : (101 / 100 : K) * S.safety ≤ 1)
+    (hmin : 0 < S.scaleMin) (hminS : (101 / 100 : K) * S.scaleMin ≤ 1) (hN : 1 ≤ S.maxNewton)
+    (hM : ∀ m, S.maxStep = some m → 0 ≤ m) (s0 : State K) (h0 : start ratLits S = .inl s0) (os : List (PassOracle K)) :
+    ∀ s ∈ runStates ratLits (params ratLits S) os s0,
+      (s.last = false → |s.h| ≤ (params ratLits S).hmax) ∧ |s.h| ≤ (101 / 100 : K) * (params ratLits S).hmax
+        ∧ 0 ≤ s.h * (params ratLits S).posneg ∧ 0 ≤ (S.xend - (s.x + s.h)) * (params ratLits S).posneg := by
+  have hP := params_ok ratLits ratLits_ok S hs hsS hmin hminS hN hM
+  intro s hm
+  have := run_rinv ratLits (params ratLits S) ratLits_ok hP hpow os s0 (start_rinv ratLits ratLits_ok S hP s0 h0) s hm
+  exact ⟨this.short, this.bound, this.dir, this.room⟩
+
+/-- the hypotheses of `c11_radau_steps` are satisfiable: ℚ with `pow a b := 1`, the default settings -/
+local instance : SqrtPow ℚ := ⟨id, fun _ _ => 1⟩
+example : PowOK ℚ := ⟨fun _ _ _ _ => le_refl _, fun _ _ _ _ => ⟨zero_le_one, le_refl _⟩⟩
+example : (0 : ℚ) < 9 / 10 ∧ (101 / 100 : ℚ) * (9 / 10) ≤ 1 ∧ (0 : ℚ) < 1 / 5 ∧ (101 / 100 : ℚ) * (1 / 5) ≤ 1 := by norm_num
+end
+end RadauCtl
